@@ -80,3 +80,17 @@ for nm, ent, what in (("delta_window", "h_delta_window", "one 6-bit delta window
         extra_src=["crctab.c"], functions=DELTA_FUNCS, bounds=what + "; inductive step: sequences of any length follow",
         assumptions=["execution cut at hook VERIF_POINT(DELTA_DONE) (table complete; make_tree() is checked by the tree obligations)",
                      "strict reference = bzip2 1.0.x rule: running length within 1..20 before every bit read"])
+
+# ------------------------------------------------------------------------------- C05/C06/C15 stream/block header parser
+PARSE_FUNCS = ["src/parse.c:parse", "src/parse.c:parser_init", "src/parse.c:bits_need/bits_peek/bits_dump/bits_align macros"]
+PARSE_STATES = ["stream1", "stream2", "blk1", "blk2", "blk3", "bcrc1", "bcrc2", "eos2", "eos3", "ecrc1", "ecrc2"]
+for nw, tier, to in ((3, "quick", 400), (5, "thorough", 1800)):
+  for st, stname in enumerate(PARSE_STATES):
+    add("parse_nw%d_%s" % (nw, stname), "h_parse.c", "h_parse_step", {"C05": tier, "C06": tier, "C15": tier, "C10": tier, "C07": tier},
+        defines=["-DNW=%d" % nw, "-DST_LO=%d" % st], cbmc=["--unwind", "18"], backend="kissat", timeout=to, mem_gb=6, functions=PARSE_FUNCS,
+        witness_mode="any",
+        bounds="one parse() call entered at grammar position %s (all 11 positions are registered) with arbitrary level/CRC registers, bit stream of <=63 live bits + %d symbolic words, eof symbolic; "
+               "inductive step: whole multi-block / multi-stream files follow" % (stname, nw),
+        assumptions=["struct bitstream invariant: live<=63, bits below the live ones are zero; words are 32-bit aligned in the file (work() reads the 4-byte header first)",
+                     "while the second half of a CRC field is awaited, stored_crc holds the 16-bit first half (set by the preceding step)"],
+        outside=["more than %d input words per call (the parser is a finite automaton over 16-bit units; longer inputs repeat the loop)" % nw])
